@@ -481,6 +481,11 @@ impl Controller for Bbr {
         self.min_cwnd = calculate_min_window(self.current_mtu);
         self.init_cwnd = self.config.initial_window.max(self.min_cwnd);
         self.cwnd = self.cwnd.max(self.min_cwnd);
+        // An established recovery window (zero means "not set up yet") bounds `window()` while in
+        // recovery, so it must respect the new minimum as well.
+        if self.recovery_window != 0 {
+            self.recovery_window = self.recovery_window.max(self.min_cwnd);
+        }
     }
 
     fn window(&self) -> u64 {
